@@ -15,6 +15,7 @@ import ChythonModel.Proofs.C03Bracket
 import ChythonModel.Proofs.C03HydSmiles
 import ChythonModel.Proofs.C03StringsB
 import ChythonModel.Proofs.C03Lenient
+import ChythonModel.Proofs.C03Words
 /-!
 # C03 — SMILES reader builds exactly the molecule the text denotes, rejects the rest
 
@@ -649,26 +650,6 @@ theorem bond_chars_are_keys : ∀ c ∈ bondChars, (lookupNat c replaceDict).isS
 theorem atom_re_shape : atomRe.length = 6 ∧ (atomRe[1]?).map (fun g => g.1) = some false := by decide
 
 /-! ## bracket atoms: `_atom_parse` and the tokenizer invert the spelling -/
-
-/-- every non-empty string of length ≤ n over an alphabet is in `words` -/
-theorem mem_words (alpha : List Nat) : ∀ (n : Nat) (w : List Nat), w ≠ [] → w.length ≤ n → (∀ c ∈ w, c ∈ alpha) →
-    w ∈ words alpha n
-  | 0, w, hne, hl, _ => by
-    cases w with
-    | nil => exact absurd rfl hne
-    | cons _ _ => simp at hl
-  | n + 1, w, hne, hl, hall => by
-    cases w with
-    | nil => exact absurd rfl hne
-    | cons c w' =>
-      unfold words
-      simp only [List.mem_append, List.mem_map, List.mem_flatMap]
-      have hc : c ∈ alpha := hall c (by simp)
-      cases w' with
-      | nil => exact Or.inl ⟨c, hc, rfl⟩
-      | cons d w'' =>
-        right
-        refine ⟨d :: w'', mem_words alpha n (d :: w'') (by simp) (by simpa using hl) (fun x hx => hall x (by simp [hx])), c, hc, rfl⟩
 
 /-- **Bracket atoms.** For every structured bracket atom `isotope? symbol chirality? hcount? charge? class?` (isotope 1–3
     digits not starting with 0; symbol = one letter of `atom_re`'s first class, optionally one of its second; `@`/`@@`;
